@@ -111,20 +111,30 @@ func c15Entry() any {
 // HarnessC15_lists: a list under one key on both sides.
 func HarnessC15_lists() {
 	c15Tokens()
-	L := 2
-	if vTier() > 0 {
-		L = 3
+	lb, lt := 2, 2
+	longer := vTier() > 0 && ndChoice(2) == 1
+	if longer {
+		lb, lt = 2, 3
 	}
-	mk := func() []any {
-		n := ndChoice(L + 1)
+	mk := func(max int) []any {
+		n := ndChoice(max + 1)
 		l := []any{}
 		for i := 0; i < n; i++ {
+			if longer {
+				// thorough: longer target, entries scalar | {a}
+				if ndChoice(2) == 0 {
+					l = append(l, ndScalarNN())
+				} else {
+					l = append(l, map[string]any{"a": ndScalarNN()})
+				}
+				continue
+			}
 			l = append(l, c15Entry())
 		}
 		return l
 	}
-	base := map[string]any{"l": mk(), "k": "s0"}
-	target := map[string]any{"l": mk(), "k": "s0"}
+	base := map[string]any{"l": mk(lb), "k": "s0"}
+	target := map[string]any{"l": mk(lt), "k": "s0"}
 	c15Check(base, target)
 }
 
@@ -135,7 +145,7 @@ func HarnessC15_longlists() {
 	c15Tokens()
 	lb, lt := 2, 4
 	if vTier() > 0 {
-		lb, lt = 3, 5
+		lb, lt = 3, 4
 	}
 	mk := func(max int) []any {
 		n := ndChoice(max + 1)
